@@ -114,14 +114,14 @@ theorem inv_of_reconfigured {s s' : State} {ps : List Pool} (h : Inv s) (rc : Re
     · obtain ⟨r, h1, h2, h3⟩ := h.safe.own q hq hd hm
       refine ⟨r, ?_, h2, h3⟩
       rw [rc.alloc, hkeep q hq hd hm]
-      simp only [if_true, listed, Tbl.get_append, h.coh.agree, h1, Option.orElse]
+      simp only [if_true, listed_eq, Tbl.get_append, h.coh.agree, h1, Option.orElse]
     · rw [hadm] at hr
       by_cases hc : configured ps ip = true
       · rw [if_pos hc] at hr
         obtain ⟨h1, h2⟩ := h.safe.admin ip r hr
         refine ⟨?_, h2⟩
         rw [rc.alloc, if_pos hc]
-        simp only [listed, Tbl.get_append, h.coh.agree, h1, Option.orElse]
+        simp only [listed_eq, Tbl.get_append, h.coh.agree, h1, Option.orElse]
       · rw [if_neg hc] at hr; cases hr
   · rw [rc.pods, rc.nextUid]; exact h.podsWF
   · rw [rc.pods]; exact h.uidUniq
